@@ -255,6 +255,8 @@ pub struct Acc {
     pub viol_count: u64,
     pub known_hits: BTreeMap<String, u64>,
     pub samples: Vec<String>,
+    /// first case seen by this accumulator; used when the seed-rotated stride selected nothing
+    pub fallback: Option<String>,
     pub counters: BTreeMap<String, u64>,
 }
 impl Acc {
@@ -269,6 +271,7 @@ impl Acc {
     }
     pub fn sample(&mut self, idx: u64, seed: u64, stride: u64, f: impl FnOnce() -> String) {
         if self.samples.len() < 3 && (idx.wrapping_add(seed)) % stride.max(1) == 0 { self.samples.push(f()); }
+        else if self.fallback.is_none() && self.samples.is_empty() { self.fallback = Some(f()); }
     }
     pub fn merge(&mut self, o: Acc) {
         self.evals += o.evals; self.nontrivial += o.nontrivial; self.transitions += o.transitions;
@@ -281,6 +284,7 @@ impl Acc {
         }
         for (k, n) in o.known_hits { *self.known_hits.entry(k).or_insert(0) += n; }
         for s in o.samples { if self.samples.len() < 8 { self.samples.push(s); } }
+        if self.fallback.is_none() { self.fallback = o.fallback; }
         for (k, n) in o.counters { *self.counters.entry(k).or_insert(0) += n; }
     }
 }
